@@ -142,6 +142,9 @@ def gen_spec(rng, clean=False, max_nodes=5):
                 targets = nids + [t for k, t in enumerate(sids) if srank[k] < srank[j]]
             else:
                 targets = nids + sids
+                if rng.random() < 0.25:
+                    # a top-level node of ANOTHER scene: defined, but not in this scene's scope
+                    targets = targets + ['s%dn%d' % (1 - s, rng.randint(0, 1))]
             nd = {'id': i if rng.random() < 0.9 else None, 'children': None, 'name': rng.choice(sids)}
             if nd['id'] is None:
                 targets = [t for t in targets if t != i]
